@@ -410,6 +410,23 @@ impl ASN1Type {
                         // The referenced type may still wait for its own COMPONENTS OF
                         // to be expanded (when it is linked after this one)
                         let mut linked_ty = linked.ty.clone();
+                        // ... or be an instance of a parameterized type that is not expanded yet
+                        if let ASN1Type::ElsewhereDeclaredType(e) = &linked_ty {
+                            if let Some(Constraint::Parameter(args)) = e
+                                .constraints()
+                                .iter()
+                                .find(|c| matches![c, Constraint::Parameter(_)])
+                            {
+                                if let Ok(resolved) = Self::resolve_parameters(
+                                    &e.identifier,
+                                    e.parent.as_ref(),
+                                    tlds,
+                                    args,
+                                ) {
+                                    linked_ty = resolved;
+                                }
+                            }
+                        }
                         visiting.push(comp_link.clone());
                         linked_ty.link_components_of(tlds, visiting);
                         visiting.pop();
